@@ -38,3 +38,11 @@ func VerifMsgTarget(msgType string, outbound bool) string {
 
 	return s.Name()
 }
+
+// VerifSync returns once the internal listener has finished every callback queued before this call
+// (the callback channel is unbuffered and the listener is sequential; a no-op state executes nothing).
+func (s *Service) VerifSync() {
+	md := &MetaData{state: &noOp{}}
+	md.PIID = "verif-sync"
+	s.callbacks <- md
+}
